@@ -354,6 +354,8 @@ def finishReal (c : List Nat) (e : Nat) (neg : Bool) (num off tmp start : Nat) (
   | none => none
   | some (.inl r) => some r
   | some (.inr t) =>
+    -- repaired (sticky exponent overflow): nine or more exponent digits are out of range whatever the mantissa
+    if t.exponent ≥ 100000000 ∧ num ≠ 0 then some ⟨.notANumber, num, t.off⟩ else
     let xn := adjustExponent fractionOnly off dotOff en10 t
     realResult neg num ep10 xn.1 xn.2 t.off
 
